@@ -90,6 +90,46 @@ def judge(l, r, cfg, via, im, mo):
     return out
 
 
+def _all_coords(d):
+    """(addr, node, parent, ref) for every node of d below the root."""
+    out = []
+
+    def walk(n, addr):
+        if n["k"] == "map":
+            for kk, v in n["e"]:
+                out.append((addr + [["k", kk]], v, n, kk))
+                walk(v, addr + [["k", kk]])
+        elif n["k"] == "seq":
+            for i, v in enumerate(n["i"]):
+                out.append((addr + [["i", i]], v, n, i))
+                walk(v, addr + [["i", i]])
+    walk(d, [])
+    return out
+
+
+def rule_hits_twin(r, cfg):
+    """Does a configured rule / key path name a node of r that has an equal twin elsewhere in r (equal node, equal
+    parent, same key / index - e.g. the same record twice in an array of hashes)?  `_get_config_for` compares by ==,
+    so the rule holds for the twin too - as long as both stay equal.  The real merge appends right-hand records BY
+    REFERENCE and merges later records into them, which changes the right-hand document the rules are registered against:
+    whether the twin still matches then depends on which keys were merged before the lookup (`[{a: []}] <- [R, R]`,
+    aoh=deep, rule `[0].n = right`: R[1].n finds the rule when `n` precedes `a` in R, not when `a` comes first).  The
+    model has values, not objects; such inputs are outside its abstraction."""
+    addrs = [a for a, _v in cfg.get("rules", [])] + [a for a, _v in cfg.get("keys", [])]
+    if not addrs:
+        return False
+    coords = _all_coords(r)
+    for a in addrs:
+        mine = [c for c in coords if c[0] == a]
+        if not mine:
+            continue
+        _a, node, parent, ref = mine[0]
+        for b, n2, p2, ref2 in coords:
+            if b != a and ref2 == ref and type(ref2) is type(ref) and mg.content_eq(n2, node) and mg.content_eq(p2, parent):
+                return True
+    return False
+
+
 def _order_ok_deep(l, r, m):
     if not mg.order_ok(l, r, m):
         return False
@@ -169,6 +209,13 @@ def run_cases(cases):
         if j is None:
             stats["oom"] += 1
             continue
+        if j and rule_hits_twin(r, cfg):
+            # outside the model's abstraction (see rule_hits_twin); crashes are judged all the same
+            keep = [x for x in j if "@" in x[1]]
+            if len(keep) != len(j):
+                hist["rule_names_node_with_equal_twin(differs; not judged)"] = hist.get("rule_names_node_with_equal_twin(differs; not judged)", 0) + 1
+                stats["oom"] += 1
+            j = keep
         if "ok" in im and im["ok"] != l and im["ok"] != r:
             nontrivial += 1
             if len(samples) < 1 and mg.size(l) > 3:
